@@ -145,11 +145,18 @@ impl NormalizedTimeDuration {
                 // a. Let fractionalDays be days + DivideNormalizedTimeDuration(norm, nsPerDay).
                 let fractional_days = days.checked_add(&FiniteF64(self.as_fractional_days()))?;
                 // b. Set days to RoundNumberToIncrement(fractionalDays, increment, roundingMode).
-                let days = IncrementRounder::from_signed_num(
-                    fractional_days.0,
-                    options.increment.as_extended_increment(),
-                )?
-                .round(options.rounding_mode);
+                // NOTE: `fractionalDays` is a mathematical value: next to a few hundred days a double
+                // no longer holds a nanosecond (and beyond 2^31 the parity seen by halfEven), so the
+                // rounding is done on the exact nanoseconds and an increment of whole days.
+                let nanoseconds = self.add_days(days.as_())?.0;
+                let day_increment = options
+                    .increment
+                    .as_extended_increment()
+                    .checked_mul(NonZeroU128::new(NS_PER_DAY as u128).temporal_unwrap()?)
+                    .temporal_unwrap()?;
+                let days = IncrementRounder::<i128>::from_signed_num(nanoseconds, day_increment)?
+                    .round(options.rounding_mode)
+                    / NS_PER_DAY as i128;
                 // c. Let total be fractionalDays.
                 // d. Set norm to ZeroTimeDuration().
                 (
